@@ -61,7 +61,7 @@ CONTAINERS = {
     "Branch": {"values": "H.Branch({c}, H.Count())"},
 }
 
-ARITH = ("Sum", "Average", "Deviate", "Bin(", "SparselyBin", "Fraction", "Select")
+ARITH = ("Sum", "Average", "Deviate", "Bin(", "SparselyBin", "Fraction", "Select")  # trees without these compare/copy floats only
 
 DEEP = [
     ("Select>Bin>Deviate", "H.Select(qb, H.Bin(2, 0.0, 2.0, qx, H.Deviate(qy)))"),
@@ -134,6 +134,20 @@ def unit():
             slot = "value" if "value" in CONTAINERS[p] else sorted(CONTAINERS[p])[0]
             out.append(Tree(p, CONTAINERS[p][slot].format(q="qx", c=c)))
     return out
+
+
+# further one-level trees that the per-primitive recipes do not reach: selections whose quantity is a number
+# (weight factor, may be 0, negative, NaN or +-inf) rather than a bool, and containers holding a non-Count leaf
+EXTRA_UNIT = [
+    ("Select:float", "H.Select(qx, H.Sum(qy))"),
+    ("Fraction:float", "H.Fraction(qx, H.Sum(qy))"),
+    ("Stack:Minimize", "H.Stack([0.0, 1.0], qx, H.Minimize(qy))"),
+    ("Categorize:Average", "H.Categorize(qc, H.Average(qx))"),
+]
+
+
+def extra_unit():
+    return [Tree(n, e) for n, e in EXTRA_UNIT]
 
 
 def slot(children=None, parents=None):
